@@ -90,7 +90,22 @@ def _deepcopy_temporal(ctx) -> None:
         recon.check_site(ctx, s, rule="DEEPCOPY")
         ctx.ob("DEEPCOPY.class", "DateTime.__deepcopy__", s.callee == "self.__class__", f"rebuilds through {s.callee}", s.loc)
     if not sites:
-        ctx.ob("DEEPCOPY.class", "DateTime.__deepcopy__", False, "no field-by-field reconstruction found", m.rel)
+        # alternative: rebuilt from the same state tuple as pickle / copy (checked by STATE-COMPLETE), fold passed on
+        fn = m.func("DateTime.__deepcopy__")
+        r = core.returns(fn)
+        ok = False
+        if len(r) == 1 and isinstance(r[0].value, ast.Call) and nun(r[0].value.func) == "self.__class__":
+            c = r[0].value
+            star = [a for a in c.args if isinstance(a, ast.Starred)]
+            kws = {k.arg: nun(k.value) for k in c.keywords}
+            ok = len(star) == 1 and len(c.args) == 1 and nun(star[0].value) in ("self._getstate()", "copy.deepcopy(self._getstate(), memo)", "copy.deepcopy(self._getstate(), _)") \
+                and kws.get("fold") == "self.fold"
+        if ok:
+            ctx.ob("DEEPCOPY.class", "DateTime.__deepcopy__", True, "rebuilt from the pickle state tuple (field list checked by STATE-COMPLETE), fold passed on", m.rel)
+        elif len(r) == 1:
+            ctx.unverified("DEEPCOPY.class", "DateTime.__deepcopy__", f"returns `{nun(r[0].value)[:80]}`", m.rel)
+        else:
+            ctx.ob("DEEPCOPY.class", "DateTime.__deepcopy__", False, "no field-by-field reconstruction found", m.rel)
 
 
 def _duration(ctx) -> None:
@@ -192,10 +207,17 @@ def _interval(ctx) -> None:
         if len(r) == 1 and isinstance(r[0].value, ast.Call) and nun(r[0].value.func) == "self.__class__":
             args = [nun(a) for a in r[0].value.args]
             env = {}
+            whole = False
             for n in core.walk_fn(fn):
                 if isinstance(n, ast.Assign) and isinstance(n.targets[0], ast.Tuple) and nun(n.value) == "self._getstate()":
                     for i, e in enumerate(n.targets[0].elts):
                         env[nun(e)] = ["<start>", "<end>", "<absolute>"][i]
+                elif isinstance(n, ast.Assign) and isinstance(n.targets[0], ast.Tuple) and isinstance(n.value, ast.Call) \
+                        and nun(n.value.func) == "copy.deepcopy" and n.value.args and nun(n.value.args[0]) == "self._getstate()":
+                    # the whole (start, end, absolute) state is deep-copied at once
+                    for i, e in enumerate(n.targets[0].elts):
+                        env[nun(e)] = ["<start>", "<end>", "<absolute>"][i]
+                    whole = True
             import re
             res = [re.sub(r"\b(\w+)\b", lambda mo: env.get(mo.group(1), mo.group(1)), a) for a in args]
             detail = f"self.__class__({', '.join(res)})"
